@@ -156,14 +156,16 @@ class Path:
 class Val:
     """a translated expression: Lean text, type, the lvalue path it denotes (if any), may it raise"""
 
-    __slots__ = ("text", "ty", "path", "raises")
+    __slots__ = ("text", "ty", "path", "raises", "fresh", "view")
 
-    def __init__(self, text, ty, path=None, raises=False):
+    def __init__(self, text, ty, path=None, raises=False, fresh=False, view=False):
         self.text, self.ty, self.path, self.raises = text, ty, path, raises
+        self.fresh = fresh  # a newly built object (literal, comprehension, copy, constructor): nobody else holds it
+        self.view = view    # a live dict view (`d.keys()`): may only be iterated at once
 
 
 class Var:
-    __slots__ = ("name", "ty", "aliases", "dead", "reassigned", "token", "is_param", "narrowed", "loopvar", "reads")
+    __slots__ = ("name", "ty", "aliases", "dead", "reassigned", "token", "is_param", "narrowed", "loopvar", "reads", "untracked")
 
     def __init__(self, name, ty, token=None, is_param=False):
         self.name, self.ty, self.token, self.is_param = name, ty, token, is_param
@@ -173,6 +175,7 @@ class Var:
         self.narrowed = False
         self.loopvar = False
         self.reads = 0
+        self.untracked = None  # reason: the variable holds an object that is also reachable elsewhere, by a route the translator does not track
 
 
 class FnInfo:
@@ -506,8 +509,18 @@ class Fx:
 
     # ---- expressions
     def expr(self, e, want=None):
-        v = self.expr0(e, want)
-        return self.coerce(v, want, e)
+        cache = self.__dict__.setdefault("_once", {})
+        key = (id(e), repr(want))
+        if key in cache:
+            return cache[key]
+        if any(k[0] == id(e) for k in cache):
+            self.fail("an operand with effects would be evaluated twice: " + ast.unparse(e), e)
+        n0 = len(self.lines)
+        v = self.coerce(self.expr0(e, want), want, e)
+        if len(self.lines) != n0:
+            cache[key] = v  # it emitted statements (a call, popleft, …): a second translation must reuse the bound result
+            self.__dict__.setdefault("_once_keep", []).append(e)  # keep the node alive: ids must not be reused
+        return v
 
     def coerce(self, v, want, node):
         if want is None or v.ty == want:
@@ -579,7 +592,7 @@ class Fx:
             t = want.a[0] if want.k == "Opt" else want
             if (isinstance(e, ast.List) and t.k != "List") or (isinstance(e, ast.Dict) and t.k not in ("Dict",)) or isinstance(e, ast.Set):
                 self.fail("empty literal %s where %r is expected" % (ast.unparse(e), want), e)
-            return Val(self.empty_of(t, e), t)
+            return Val(self.empty_of(t, e), t, fresh=True)
         if isinstance(e, ast.List):
             if want is not None and want.k != "List":
                 self.fail("list literal where %r is expected" % want, e)
@@ -588,7 +601,7 @@ class Fx:
             et = et or vs[0].ty
             if any(v.ty != et for v in vs):
                 self.fail("list literal with mixed element types", e)
-            return Val("[" + ", ".join(v.text for v in vs) + "]", T("List", et), None, any(v.raises for v in vs))
+            return Val("[" + ", ".join(v.text for v in vs) + "]", T("List", et), None, any(v.raises for v in vs), fresh=True)
         if isinstance(e, ast.Tuple):
             wants = want.a if (want is not None and want.k == "Tuple" and len(want.a) == len(e.elts)) else [None] * len(e.elts)
             vs = [self.expr(x, w) for x, w in zip(e.elts, wants)]
@@ -648,12 +661,12 @@ class Fx:
                 l = self.try_expr(e.left)
                 if l is not None and l.ty.k == "Set":
                     r = self.expr(e.right, l.ty)
-                    return Val("(PySet.diff %s %s %s)" % (A.eq_of(l.ty.a[0], self), l.text, r.text), l.ty, None, l.raises or r.raises)
+                    return Val("(PySet.diff %s %s %s)" % (A.eq_of(l.ty.a[0], self), l.text, r.text), l.ty, None, l.raises or r.raises, fresh=True)
             if isinstance(e.op, ast.Add):
                 l = self.try_expr(e.left)
                 if l is not None and l.ty.k == "List":
                     r = self.expr(e.right, l.ty)
-                    return Val("(%s ++ %s)" % (l.text, r.text), l.ty, None, l.raises or r.raises)
+                    return Val("(%s ++ %s)" % (l.text, r.text), l.ty, None, l.raises or r.raises, fresh=True)
             return self.numeric(e, want)
         if isinstance(e, ast.UnaryOp) and isinstance(e.op, ast.USub):
             return self.numeric(e, want)
@@ -698,6 +711,7 @@ class Fx:
             return self.expr(e, want)
         except Fail:
             self.lines, self.info.monadic, self.info.uses_lower, self.tmp = snap
+            self.__dict__.get("_once", {}).clear()
             return None
 
     def numeric(self, e, want):
@@ -795,6 +809,9 @@ class Fx:
         if v.ty.k == "List":
             return v.text, v.ty.a[0], v.path, v.raises
         if v.ty.k == "Set":
+            if not getattr(self, "set_order_ok", 0):
+                self.fail("iteration over a set: CPython's order is hash order, the runtime's is insertion order (only len(), set(), membership "
+                          "and effects taking the set as a whole are in the subset)", e)
             return "(PySet.toList %s)" % v.text, v.ty.a[0], v.path, v.raises
         if v.ty.k == "Dict":
             return "(PyDict.keys %s)" % v.text, v.ty.a[0], v.path, v.raises
@@ -841,7 +858,7 @@ class Fx:
             text = "(List.filterMap (fun %s => if %s then some (%s, %s) else none) %s)" % (pat, " && ".join(c.text for c in conds), k, val.text, src)
         else:
             text = "(List.map (fun %s => (%s, %s)) %s)" % (pat, k, val.text, src)
-        return Val(text, T("Dict", et.a[0], val.ty), None, raises)
+        return Val(text, T("Dict", et.a[0], val.ty), None, raises, fresh=True)
 
     def comprehension(self, e, want):
         A = self.area
@@ -898,8 +915,8 @@ class Fx:
             else:
                 text = "(List.flatMap (fun %s => %s) %s)" % (pat, text, src)
         if is_set:
-            return Val("(PySet.ofList %s %s)" % (A.eq_of(elt.ty, self), text), T("Set", elt.ty), None, elt.raises)
-        return Val(text, T("List", elt.ty), None, elt.raises)
+            return Val("(PySet.ofList %s %s)" % (A.eq_of(elt.ty, self), text), T("Set", elt.ty), None, elt.raises, fresh=True)
+        return Val(text, T("List", elt.ty), None, elt.raises, fresh=True)
 
     # ---- conditions
     def cond_val(self, e, top=False):
@@ -1033,14 +1050,18 @@ class Fx:
                 return Val(self.cond(e.args[0]), BOOL)
             if n in ("list", "reversed") and len(e.args) == 1:
                 t, et, _p, r = self.iterable(e)
-                return Val(t, T("List", et), None, r)
+                return Val(t, T("List", et), None, r, fresh=True)
             if n == "set" and not e.args and want is not None and want.k == "Set":
-                return Val("PySet.empty", want)
+                return Val("PySet.empty", want, fresh=True)
             if n == "set" and len(e.args) == 1:
                 t, et, _p, r = self.iterable(e.args[0])
-                return Val("(PySet.ofList %s %s)" % (A.eq_of(et, self), t), T("Set", et), None, r)
+                return Val("(PySet.ofList %s %s)" % (A.eq_of(et, self), t), T("Set", et), None, r, fresh=True)
             if n == "len" and len(e.args) == 1:
-                t, et, _p, r = self.iterable(e.args[0])
+                self.set_order_ok = getattr(self, "set_order_ok", 0) + 1
+                try:
+                    t, et, _p, r = self.iterable(e.args[0])
+                finally:
+                    self.set_order_ok -= 1
                 return Val("(List.length %s)" % t, NAT, None, r)
             if n == "isinstance" and len(e.args) == 2:
                 st = self.static_cond(e)
@@ -1075,7 +1096,7 @@ class Fx:
                     self.emit("let %s := PyStore.alloc self.%s %s" % (r, sf, ctor))
                     self.assign_path(Path("self", (("f", "⟨store⟩", sf),)), "%s.2" % r, e)
                     return Val("%s.1" % r, T("Ref", n), None, False)
-                return Val(ctor, T("Class", n), None, any(a.raises for a in args))
+                return Val(ctor, T("Class", n), None, any(a.raises for a in args), fresh=True)
             if n == "heappop" and len(e.args) == 1:
                 b = self.expr(e.args[0])
                 if b.ty.k != "List" or b.path is None:
@@ -1084,11 +1105,11 @@ class Fx:
                 self.monadic()
                 self.emit("let %s ← PyHeap.pop %s" % (r, b.text))
                 self.assign_path(b.path, "%s.2" % r, e)
-                return Val("%s.1" % r, b.ty.a[0])
+                return Val("%s.1" % r, b.ty.a[0], fresh=True)
             if n == "deque" and not e.args:
                 if want is None or want.k != "List":
                     self.fail("deque() where %r is expected" % want, e)
-                return Val("[]", want)
+                return Val("[]", want, fresh=True)
             if n in self.env_fns:
                 ptys, rty = self.env_fns[n]
                 if len(e.args) == 1 and isinstance(e.args[0], ast.Starred):
@@ -1122,7 +1143,7 @@ class Fx:
                 return Val("(lower %s)" % b.text, STR, None, b.raises)
             if m in ("items", "values", "keys") and not e.args:
                 t, et, _p, r = self.iterable(e)
-                return Val(t, T("List", et), None, r)
+                return Val(t, T("List", et), None, r, view=True)
             ent = self.try_effect(e, e)
             if ent:
                 if "returns" not in ent:
@@ -1138,17 +1159,17 @@ class Fx:
                     d = self.expr(e.args[1], b.ty.a[1])
                     return Val("(PyDict.getD %s %s %s %s)" % (eq, b.text, k.text, d.text), b.ty.a[1], None, b.raises or k.raises or d.raises)
                 if m == "copy" and not e.args:
-                    return Val(b.text, b.ty, None, b.raises)
+                    return Val(b.text, b.ty, None, b.raises, fresh=True)
                 if m == "pop" and len(e.args) == 2 and isinstance(e.args[1], ast.Constant) and e.args[1].value is None and b.path is not None:
                     k = self.expr(e.args[0], b.ty.a[0])
                     r = self.fresh("pp")
                     self.emit("let %s := PyDict.popD %s %s %s" % (r, eq, b.text, k.text))
                     self.assign_path(b.path, "%s.2" % r, e)
-                    return Val("%s.1" % r, T("Opt", b.ty.a[1]))
+                    return Val("%s.1" % r, T("Opt", b.ty.a[1]), fresh=True)
                 if m == "setdefault" and len(e.args) == 2:
                     return self.setdefault(b, e, eq)
             if b.ty.k in ("List", "Set") and m == "copy" and not e.args:
-                return Val(b.text, b.ty, None, b.raises)
+                return Val(b.text, b.ty, None, b.raises, fresh=True)
             if b.ty.k == "List" and m == "popleft" and not e.args:
                 if b.path is None:
                     self.fail("popleft on something that is not an lvalue", e)
@@ -1156,7 +1177,7 @@ class Fx:
                 self.monadic()
                 self.emit("let %s ← PyList.popleft %s" % (r, b.text))
                 self.assign_path(b.path, "%s.2" % r, e)
-                return Val("%s.1" % r, b.ty.a[0])
+                return Val("%s.1" % r, b.ty.a[0], fresh=True)
             if b.ty.k == "Opaque":
                 sp = A.opaque[b.ty.a[0]]
                 if m in sp.get("methods", {}):
@@ -1254,7 +1275,7 @@ class Fx:
             return r + "".join(".2" for _ in range(i)) + (".1" if i < len(comps) - 1 else "")
 
         for pn, path in wb:
-            self.assign_path(path, comp(comps.index(pn)), node)
+            self.assign_path(path, comp(comps.index(pn)), node, via="mutate")
         if fi.effects:
             self.info.effects = True
             self.emit("effects := effects ++ %s" % comp(len(comps) - 1))
@@ -1275,6 +1296,9 @@ class Fx:
             if v is except_var:
                 continue
             if any(p.overlaps(path) for p in v.aliases):
+                if len(v.aliases) > 1:
+                    self.fail("the object held by %s is stored in several places (%s) and is changed through one of them" %
+                              (v.name, ", ".join(map(repr, v.aliases))), None)
                 v.dead = "%s changed at %s" % (path, why)
                 for s in self.kill_log:
                     s.add(v)
@@ -1289,6 +1313,8 @@ class Fx:
             self.fail("mutation of (an object reached through) the loop variable %s: its container would need a write-back" % path.root, node)
         if v.narrowed:
             self.fail("assignment to the narrowed variable " + path.root, node)
+        if v.untracked:
+            self.fail("%s may be an alias of an object held elsewhere (%s): changing it is outside the subset" % (path.root, v.untracked), node)
         return v
 
     def build_update(self, path, newtext, node):
@@ -1340,6 +1366,8 @@ class Fx:
             for ap in list(v.aliases):
                 av = self.root_var(ap, node)
                 t = self.build_update(ap, lean_local(path.root), node)
+                if hasattr(self, "mut_log"):
+                    self.mut_log.append((len(self.lines), ap))
                 self.emit("%s := %s" % (lean_local(ap.root), strip_outer(t)))
                 av.reassigned = True
                 if av.is_param and ap.root not in self.info.mutated:
@@ -1509,7 +1537,11 @@ class Fx:
                 val = self.expr(value, want)
                 if val.ty == NONE:
                     self.fail("assignment of None to an untyped local", node)
+                if val.view:
+                    self.fail("a live dict view (`.keys()` / `.values()` / `.items()`) kept in a variable is outside the subset (wrap it in list(...))", node)
                 nv = Var(name, val.ty)  # declared after the right-hand side is translated
+                if is_mutable_ty(val.ty) and val.path is None and not val.fresh:
+                    nv.untracked = "it was obtained from `%s`" % ast.unparse(value)
                 tok = "⟪%s#%d⟫" % (name, len(self.tokens))
                 nv.token = tok
                 self.tokens[tok] = nv
@@ -1587,7 +1619,15 @@ class Fx:
                 kn = self.fresh("key")
                 self.emit("let %s := %s" % (kn, k.text))
                 k = Val(kn, k.ty)
+            n_before_val = len(self.lines)
             val = self.expr(value, b.ty.a[1])
+            if val.raises and (b.raises or "(← " in k.text):
+                # CPython evaluates the assigned value before the subscripts of the target: bind it first
+                if len(self.lines) != n_before_val:
+                    self.fail("an assigned value with effects next to a raising target subscript", node)
+                vn = self.fresh("val")
+                self.emit("let %s := %s" % (vn, val.text))
+                val = Val(vn, val.ty, val.path, False, val.fresh)
             eq = A.eq_of(b.ty.a[0], self)
             self.mutate_path(b.path, lambda cur: "(PyDict.set %s %s %s %s)" % (eq, atom(cur), k.text, atom(val.text)), node, cur=b.text)
             self.note_stored(val, b.path.extend(("k", k.text, eq, names_in(tgt.slice))), node)
@@ -1596,6 +1636,10 @@ class Fx:
 
     def note_stored(self, val, path, node):
         """a mutable object held by a variable was stored into a container: the variable now aliases that place"""
+        if val.path is not None and val.path.steps and is_mutable_ty(val.ty):
+            self.fail("storing an object that lives in another container (%r) into %r: two places for one object" % (val.path, path), node)
+        if val.path is None and is_mutable_ty(val.ty) and not val.fresh:
+            self.fail("storing an object of unknown provenance into %r" % path, node)
         if val.path is not None and not val.path.steps and is_mutable_ty(val.ty):
             v = self.lookup(val.path.root)
             if v is not None and not any(repr(p) == repr(path) for p in v.aliases):
@@ -1851,6 +1895,7 @@ class Fx:
                 v = self.expr(st.value, self.ret)
                 if len(self.lines) != snap or v.raises:
                     del self.lines[snap:]
+                    self.__dict__.get("_once", {}).clear()
                     return None
                 return "return ⟦ret:%s⟧" % ("" if self.ret == NONE else v.text)
             except Fail:
@@ -2173,6 +2218,46 @@ def calls_in(fn, cls, keys):
     return out
 
 
+def class_pins(c, cdef, tree, rel):
+    """what decides *which* body runs for a spec'd class is pinned: base classes, class decorators, `__slots__`, assignments to the
+    class's attributes at module level, subclasses in the same module that override a translated method, properties / other
+    definitions shadowing a translated method"""
+    cls = c["py"]
+    bases = [ast.unparse(b) for b in cdef.bases]
+    if bases != c.get("bases", []):
+        raise Fail("class %s now derives from %s (spec: %s)" % (cls, bases, c.get("bases", [])), cdef, rel)
+    if cdef.decorator_list or cdef.keywords:
+        raise Fail("class %s has decorators / a metaclass" % cls, cdef, rel)
+    translated = {m["name"] for m in c["methods"]} | (set() if c.get("opaque") else {"__init__"})
+    fieldnames = {f[0] for f in c["fields"]}
+    for n in cdef.body:
+        if isinstance(n, ast.Assign) and any(isinstance(t, ast.Name) and t.id == "__slots__" for t in n.targets) and not c.get("opaque"):
+            try:
+                slots = set(ast.literal_eval(n.value))
+            except (ValueError, SyntaxError):
+                raise Fail("class %s: __slots__ is not a literal" % cls, n, rel)
+            if not fieldnames <= slots:
+                raise Fail("class %s: __slots__ lacks the spec'd fields %s" % (cls, sorted(fieldnames - slots)), n, rel)
+        if isinstance(n, (ast.Assign, ast.AnnAssign)):
+            tg = n.targets if isinstance(n, ast.Assign) else [n.target]
+            for t in tg:
+                if isinstance(t, ast.Name) and t.id in translated:
+                    raise Fail("class %s: the translated method %s is re-bound in the class body" % (cls, t.id), n, rel)
+    for n in ast.walk(tree):
+        if isinstance(n, (ast.Assign, ast.AugAssign, ast.AnnAssign, ast.Delete)):
+            tg = n.targets if isinstance(n, (ast.Assign, ast.Delete)) else [n.target]
+            for t in tg:
+                if isinstance(t, ast.Attribute) and isinstance(t.value, ast.Name) and t.value.id == cls:
+                    raise Fail("module-level code assigns to %s.%s" % (cls, t.attr), n, rel)
+        if isinstance(n, ast.Call) and isinstance(n.func, ast.Name) and n.func.id in ("setattr", "delattr") and n.args \
+                and isinstance(n.args[0], ast.Name) and n.args[0].id == cls:
+            raise Fail("setattr/delattr on the class %s" % cls, n, rel)
+        if isinstance(n, ast.ClassDef) and n is not cdef and any(ast.unparse(b) == cls for b in n.bases):
+            over = [m.name for m in n.body if isinstance(m, (ast.FunctionDef, ast.AsyncFunctionDef)) and m.name in translated]
+            if over:
+                raise Fail("class %s overrides the translated method(s) %s of %s" % (n.name, ", ".join(over), cls), n, rel)
+
+
 def gen_area(repo, spec, common, cenv):
     src = pathlib.Path(repo) / "src" / "zeroconf"
     rel = spec.SOURCE
@@ -2238,6 +2323,7 @@ def gen_area(repo, spec, common, cenv):
             f.file = crel
             raise
         cdefs[c["py"]] = cdef
+        class_pins(c, cdef, ctree, crel)
         for ms in c["methods"]:
             try:
                 fn = gen_lean.find_def(tree, c["py"] + "." + ms["name"])
